@@ -28,3 +28,4 @@ import LexVerif.Model.WriteBinary
 import LexVerif.Model.Ops.WriteAlgos
 -- string→float algorithm models (fast path, Eisel–Lemire, Bellerophon, power-of-two) and their op handlers
 import LexVerif.Model.Ops.ParseAlgos
+import LexVerif.Model.WriteRadixInt
